@@ -20,9 +20,15 @@ EXPLANATION = (
     "last-complete-bucket < bucket and skipped only under bucket <= last-complete-bucket; bucket lists are sorted "
     "(or come from the cache entry of the same prefix index), prefixes are sorted and the prefix loop starts at "
     "last_complete_prefix_index+1; load_state/save_state map the prefix index to the prefix name and back; (3) "
-    "start_slice saves the state on the normal and on the TimeSliceExceeded exit and re-arms its timer unless the "
-    "service stopped, stopService saves, the end of a cycle saves; start_current_prefix is entered only from "
-    "start_slice; the lease crawler does not override the traversal; (4) the state file is written to a sibling "
+    "one time slice - start_slice followed through every ShareCrawler method it hands part of the slice to (self.<m>(..) "
+    "calls, summarised per entry state; a True/False flag a helper returns or a local holds is tracked, so a test on it "
+    "is paired only with the paths that produce that value; any other value is not) - cannot end, after the crawl step self.start_current_prefix(..) stopped by return or by "
+    "TimeSliceExceeded, without passing self.save_state(): no path from the crawl call to the return of start_slice "
+    "avoids the save, TimeSliceExceeded is caught somewhere on the way out, no explicit raise lies between the crawl step "
+    "and the return, and every return re-arms the timer (callLater(.., self.start_slice), in start_slice or a helper) "
+    "unless 'not self.running' was established; stopService saves, the end of a cycle saves; start_current_prefix (and "
+    "any helper that can return with the crawl step unsaved) is entered only from the slice; the lease crawler does not "
+    "override the traversal or the helpers of the slice; (4) the state file is written to a sibling "
     "temporary file and moved into place (os.rename) - never written in place; (5) cycle counter: current-cycle = "
     "last-cycle-finished + 1 (0 the first time) only when no cycle is in progress - the number 0 is chosen only where "
     "'last-cycle-finished is None' is established and last-cycle-finished + 1 only where it is not None, whether the "
@@ -47,6 +53,9 @@ EXPLANATION = (
     "crawler yields, every bucket is still covered; likewise the sleep-time arithmetic of start_slice), the subclass "
     "hooks (started_cycle / finished_prefix / finished_cycle / add_initial_state / yielding calls are not required), "
     "other run-time exceptions inside a slice (KeyError on a missing state key, exceptions raised by process_bucket), "
+    "a slice written with try/finally, a recursive slice, two slice steps in one statement, or a slice handed to something "
+    "other than a method of the class called on self (all reported as ANALYSIS-ERROR), a save or re-arm that depends on a value "
+    "other than a True/False flag (the walk then takes both branches: it over-approximates, such code is reported, never passed), "
     "stopService called from inside a slice (one-shot crawlers) relying on start_slice having cleared self.timer; "
     "whether a non-zero start index that passes (7) is the right number (e.g. an off-by-one in a recorded resume offset), "
     "a start computed from the persisted state (reported as ANALYSIS-ERROR), while loops.")
@@ -365,6 +374,302 @@ def _guards_about(fnorm, what, conds, w):
             if ft and what in ft[1:]:
                 fts.append(ft)
     return fts
+
+
+# --------------------------------------------------------------------------
+# One time slice, followed through the helpers it is split into.  start_slice may do its work itself or hand parts of
+# it to other methods of the class (self.<m>(..)); what matters is the sequence of events on every path through the
+# whole slice, so the walk descends into every ShareCrawler method that (transitively) contains one of the events.
+#   events: the crawl step  self.start_current_prefix(..)   (atomic: may return, may raise TimeSliceExceeded)
+#           the save        self.save_state()
+#           the re-arm      <reactor>.callLater(.., self.start_slice)   /  the edge that established 'not self.running'
+#   state:  (c, a)  c = 0 crawl step not run yet, 1 crawl step stopped (returned or timed out) and nothing saved since,
+#                       2 saved after the crawl step stopped;   a = 1 timer re-armed or service seen stopped
+#   a function is summarised as  state on entry -> {(how it is left, state)}  with 'ret' (return), 'tse'
+#   (TimeSliceExceeded propagates out), 'err:<name>' (an explicit raise / failed assertion propagates out).
+TSE = "TimeSliceExceeded"
+CRAWL = "start_current_prefix"
+
+
+class _Slice:
+    def __init__(self, idx, ci, root):
+        self.idx, self.ci, self.root = idx, ci, root
+        self.memo = {}
+        self.stack = []
+        self._rel = {}
+        self.norms = {}
+        self.descended = []           # helpers the walk went into, in discovery order
+
+    def catches_tse(self, htype):
+        names = C._handler_names(htype)
+        if names is None:
+            return True
+        try:
+            anc = {k.name for k in self.idx.cls("storage.crawler:" + TSE).mro()}
+        except AnchorVanished:
+            anc = set()
+        if set(names) & (anc | {TSE, "Exception", "BaseException"}):
+            return True
+        return None if "?" in names else False
+
+    # -- events
+    def is_rearm(self, c):
+        return call_tail(c) == "callLater" and len(c.args) >= 2 and attr_path(c.args[1]) == "self." + self.root.name
+
+    def helper_of(self, c):
+        nm = call_name(c) or ""
+        if nm.startswith("self.") and nm.count(".") == 1:
+            return self.ci.lookup(nm.split(".", 1)[1])
+        return None
+
+    def atom(self, c):
+        nm = call_name(c)
+        if nm == "self." + CRAWL:
+            return "crawl"
+        if nm == "self.save_state":
+            return "save"
+        if self.is_rearm(c):
+            return "rearm"
+        return None
+
+    def relevant(self, fn, seen=()):
+        """fn (a method of the class) contains an event, directly or through the methods it calls."""
+        if fn.qual in self._rel:
+            return self._rel[fn.qual]
+        if fn.qual in seen:
+            return False
+        out = False
+        for c in calls_in_func(fn):
+            if self.atom(c) is not None:
+                out = True
+                break
+            m = self.helper_of(c)
+            if m is not None and m.name not in (CRAWL, "save_state") and self.relevant(m, tuple(seen) + (fn.qual,)):
+                out = True
+                break
+        if not out:
+            out = any(isinstance(x, ast.Raise) and C._exc_name(x.exc) == TSE for x in func_own_nodes(fn))
+        self._rel[fn.qual] = out
+        return out
+
+    def event(self, fn, n):
+        """The one event of CFG node n: ('crawl'|'save'|'rearm', call) or ('call', call, helper) or None."""
+        evs = []
+        for c in node_calls(n):
+            a = self.atom(c)
+            if a is not None:
+                evs.append((a, c))
+                continue
+            m = self.helper_of(c)
+            if m is not None and self.relevant(m):
+                evs.append(("call", c, m))
+        if len(evs) > 1:
+            raise AnalysisError("%s: %s does several slice steps in one statement (%s): their order is not decided" % (
+                short(fn), src(fn, n.ast), ", ".join(call_name(e[1]) for e in evs)))
+        return evs[0] if evs else None
+
+    def functions(self):
+        """start_slice and every helper the walk descended into."""
+        return [self.root] + self.descended
+
+    # -- the walk
+    def summary(self, fn, st0):
+        """{(kind, state): (product state, parent map, notes)} for fn entered in state st0."""
+        key = (fn.qual, st0)
+        if key in self.memo:
+            return self.memo[key]
+        if fn.qual in self.stack:
+            raise AnalysisError("the time slice is recursive (%s calls itself through %s): not decided" % (
+                short(fn), " -> ".join(q.split(":")[1] for q in self.stack)))
+        if any(isinstance(x, ast.Try) and x.finalbody for x in func_own_nodes(fn)):
+            raise AnalysisError("%s uses try/finally: the order of crawl step, save and re-arm on its exception paths is "
+                                "not decided" % short(fn))
+        if fn is not self.root and fn not in self.descended:
+            self.descended.append(fn)
+        self.stack.append(fn.qual)
+        cfg = fn.cfg()
+        fnorm = self.norms.setdefault(fn.qual, FlowNorm(fn))
+        # product state: (node, (c, a, env, rv)) - env: the locals known to hold True / False (a flag set in two branches,
+        # or bound to what a helper returned), rv: the boolean the function returns when known.  With them a decision the
+        # caller takes on a helper's result is paired only with the helper paths that produce that result.
+        s0 = (cfg.entry.id, st0 + (frozenset(), None))
+        parent = {s0: None}
+        notes = {}
+        out = {}
+        dq = [s0]
+
+        def leave(kind, st, ps):
+            out.setdefault((kind, st[:2], st[3] if kind == "ret" else None), (ps, parent, notes))
+
+        def go(cur, d, lab, st, note=None):
+            nxt = (d, st)
+            if nxt not in parent:
+                parent[nxt] = (cur, lab)
+                if note:
+                    notes[nxt] = note
+                dq.append(nxt)
+
+        def throw(cur, n, name, st, note=None):
+            """An exception called `name` leaves node n in state st."""
+            for (d, lab) in cfg.succ[n.id]:
+                if lab != "exc":
+                    continue
+                dn = cfg.nodes[d]
+                if dn.kind == "except":
+                    m = self.catches_tse(dn.ast.type) if name == TSE else C._default_exc_match(name, dn.ast.type)
+                    if m is None and name == TSE:
+                        raise AnalysisError("%s: cannot tell whether 'except %s' catches TimeSliceExceeded" % (
+                            short(fn), src(fn, dn.ast.type)))
+                    if m is not False:
+                        go(cur, d, "exc", st, note)
+                    if m is True:
+                        return
+                elif dn.kind == "raise":
+                    break
+                else:
+                    raise AnalysisError("%s: unexpected exception edge at L%d" % (short(fn), n.lineno))
+            ps = cur
+            if note:
+                ps = (n.id, st, "out")
+                parent[ps] = (cur, "exc")
+                notes[ps] = note
+            leave("tse" if name == TSE else "err:%s" % (name or "?"), st, ps)
+
+        def flag(e, env, ev, val):
+            """The boolean expression e certainly has here, or None."""
+            if isinstance(e, ast.Constant) and isinstance(e.value, bool):
+                return e.value
+            if isinstance(e, ast.Name):
+                return dict(env).get(e.id)
+            if ev is not None and ev[0] == "call" and e is ev[1]:
+                return val
+            return None
+
+        while dq:
+            cur = dq.pop(0)
+            nid, st = cur
+            n = cfg.nodes[nid]
+            if n.kind == "exit":
+                leave("ret", st, cur)
+                continue
+            if n.kind == "raise":
+                leave("err:?", st, cur)         # reached through a failed assertion
+                continue
+            if n.kind == "stmt" and isinstance(n.ast, ast.Raise):
+                throw(cur, n, C._exc_name(n.ast.exc), st)
+                continue
+            ev = self.event(fn, n)
+            (c, a, env, rv) = st
+            normal = []                         # (c, a, value of the helper call, note) with which the node is left normally
+            if ev is None:
+                normal.append((c, a, None, None))
+            elif ev[0] == "crawl":
+                normal.append((1, a, None, None))
+                throw(cur, n, TSE, (1, a, env, rv))
+            elif ev[0] == "save":
+                normal.append((2 if c >= 1 else c, a, None, None))
+            elif ev[0] == "rearm":
+                normal.append((c, 1, None, None))
+            else:
+                m = ev[2]
+                for (kind, st2, val) in sorted(self.summary(m, (c, a)), key=repr):
+                    (ps, par, nts) = self.memo[(m.qual, (c, a))][(kind, st2, val)]
+                    note = _Note("%s: %s" % (m.name, _ip_brief(m.cfg(), par, nts, ps)))
+                    note.step = (m, (c, a), kind, st2, val)
+                    if kind == "ret":
+                        normal.append((st2[0], st2[1], val, note))
+                    else:
+                        throw(cur, n, TSE if kind == "tse" else (kind.split(":", 1)[1] if kind != "err:?" else None),
+                              st2 + (env, rv), note)
+            for (c2, a2, val, note) in normal:
+                env2, rv2 = env, rv
+                stored = {x for x in node_stores(n) if "." not in x and not x.endswith("[]")}
+                if stored:
+                    env2 = frozenset((k, v) for (k, v) in env if k not in stored)
+                    if n.kind == "stmt" and isinstance(n.ast, ast.Assign) and len(n.ast.targets) == 1 \
+                            and isinstance(n.ast.targets[0], ast.Name):
+                        v = flag(n.ast.value, env, ev, val)
+                        if v is not None:
+                            env2 = env2 | {(n.ast.targets[0].id, v)}
+                if n.kind == "stmt" and isinstance(n.ast, ast.Return):
+                    rv2 = flag(n.ast.value, env, ev, val) if n.ast.value is not None else None
+                for (d, lab) in cfg.succ[nid]:
+                    if lab == "exc":
+                        continue
+                    if n.kind == "test" and isinstance(lab, tuple) and lab[0] in ("T", "F"):
+                        v = flag(n.ast, env, ev, val)
+                        if v is not None and v != (lab[0] == "T"):
+                            continue                # this branch is not taken with that flag
+                    a3 = a2
+                    if fnorm.edge_fact(n, lab) == ("false", "self.running", None):
+                        a3 = 1
+                    go(cur, d, lab, (c2, a3, env2, rv2), note)
+        self.stack.pop()
+        self.memo[key] = out
+        return out
+
+
+class _Note(str):
+    step = None       # (helper, state on entry, how it was left, state then)
+
+
+def _unsaved_in(sl, fn, st0, key):
+    """The function to name for a path that leaves fn with the crawl step unsaved: the innermost helper on the path that
+    was entered before the crawl step, came back unsaved, and does save on other paths of its own (a 'crawl and save'
+    helper with a leak); fn itself when there is none."""
+    (ps, par, nts) = sl.summary(fn, st0)[key]
+    for (cur, _lab) in _ip_path(fn.cfg(), par, ps):
+        step = getattr(nts.get(cur), "step", None)
+        if step is not None:
+            (m, st_in, kind, st_out, val) = step
+            if kind == "ret" and st_in[0] == 0 and st_out[0] == 1 and any(
+                    k == "ret" and s2[0] == 2 for (k, s2, _v) in sl.summary(m, st_in)):
+                return _unsaved_in(sl, m, st_in, (kind, st_out, val))
+    return fn
+
+
+def short_q(fn):
+    """module-relative qualified name in the form idx.func / callers_outside take ("storage.crawler:Cls.meth")."""
+    q = fn.qual
+    return q[len("allmydata."):] if q.startswith("allmydata.") else q
+
+
+def _ip_path(cfg, parent, ps):
+    path = []
+    cur, lab_out = ps, None
+    while cur is not None:
+        path.append((cur, lab_out))
+        p = parent[cur]
+        if p is None:
+            break
+        cur, lab_out = p
+    path.reverse()
+    return path
+
+
+def _ip_witness(cfg, parent, ps):
+    return C.Witness([(cfg.nodes[cur[0]], lab) for (cur, lab) in _ip_path(cfg, parent, ps) if len(cur) == 2])
+
+
+def _ip_brief(cfg, parent, notes, ps):
+    """The path as line numbers, with the way each helper on it was passed in brackets."""
+    out = []
+    for (cur, lab) in _ip_path(cfg, parent, ps):
+        n = cfg.nodes[cur[0]]
+        if cur in notes:
+            out.append("[%s]" % notes[cur])
+        if len(cur) != 2 or n.kind == "entry":
+            continue
+        if n.kind in ("exit", "raise"):
+            out.append("return" if n.kind == "exit" else "raise")
+            continue
+        s = "L%d" % n.lineno
+        if isinstance(lab, tuple):
+            s += lab[0]
+        elif lab in ("exc", "iter", "done"):
+            s += "/" + lab
+        out.append(s)
+    return " -> ".join(out)
 
 
 # --------------------------------------------------------------------------
@@ -687,50 +992,66 @@ def run(ctx: Context):
                             "None)" % (sn.at(site).norm(leaf), IDX))
 
     # -- 3. state is saved; the crawler keeps going ----------------------------------
-    with ctx.rule("C27.3", "R2", "start_slice saves the state on the normal and on the TimeSliceExceeded exit and "
-                  "re-arms its timer unless stopped; stopService and the end of a cycle save; save_state writes "
+    with ctx.rule("C27.3", "R2", "start_slice, followed through the helpers it calls, saves the state after the crawl step on "
+                  "the normal and on the TimeSliceExceeded exit and re-arms its timer unless stopped; stopService and the end of a cycle save; save_state writes "
                   "get_state() through the serializer; only start_slice enters start_current_prefix; the lease "
                   "crawler inherits the traversal", expected=7) as r:
+        # the slice is followed through the helpers start_slice hands parts of it to (see _Slice)
+        sc_cls3 = idx.cls(SC)
+        sl = _Slice(idx, sc_cls3, ss)
+        outcomes = sl.summary(ss, (0, 0))
+        slice_fns = sl.functions()
         scfg2 = ss.cfg()
-        call_n = _one(scfg2.find(has_call_named("self.start_current_prefix")), "self.start_current_prefix call in start_slice")
-        r.site(ss, call_n.ast, "traversal call")
-        c = calls_at(call_n, "start_current_prefix")[0]
-        snorm = FlowNorm(ss)
-        handlers = [cfg_n for (d, lab) in scfg2.succ[call_n.id] if lab == "exc"
-                    for cfg_n in [scfg2.nodes[d]] if cfg_n.kind == "except"]
-        catching = [h for h in handlers if h.ast.type is not None and "TimeSliceExceeded" in
-                    [getattr(t, "id", getattr(t, "attr", None)) for t in
-                     (h.ast.type.elts if isinstance(h.ast.type, ast.Tuple) else [h.ast.type])]]
-        r.require(bool(catching), ss, ss.loc(c), "TimeSliceExceeded raised by the traversal is not caught in start_slice: "
-                  "the slice ends without saving and without re-arming the timer")
+        crawl_sites = [(f, n) for f in slice_fns for n in f.cfg().find(has_call_named("self." + CRAWL))]
+        if len(crawl_sites) != 1:
+            raise AnchorVanished("expected exactly one self.start_current_prefix call in start_slice%s, found %d" % (
+                " and the helpers it calls (%s)" % ", ".join(f.name for f in slice_fns[1:]) if slice_fns[1:] else "",
+                len(crawl_sites)))
+        (crawl_fn, call_n) = crawl_sites[0]
+        r.site(crawl_fn, call_n.ast, "traversal call")
+        c = calls_at(call_n, CRAWL)[0]
         save = has_call_named("self.save_state")
-        for n in scfg2.find(save):
-            r.site(ss, n.ast, "save_state")
-        for (n, w) in find_path_avoiding(scfg2, lambda n: n.kind == "exit", gate_node=save):
-            r.violation(ss, ss.loc(), "start_slice can finish without save_state(): progress of the slice is lost on "
-                        "restart (path: %s)" % w.brief(), w)
-        for h in catching:
-            visited, parent = explore(scfg2, 0, lambda n, lab, nxt, st: 0, start=h)
-            for (nid, _s) in sorted(visited):
-                if scfg2.nodes[nid].kind == "raise":
-                    r.violation(ss, ss.loc(h.ast), "the TimeSliceExceeded handler can raise",
-                                witness(scfg2, parent, (nid, 0)))
-            # save after the handler as well
-            for (s, w) in find_path_from_to_avoiding(scfg2, lambda n, _h=h: n is _h, gate_node=save):
-                r.violation(ss, ss.loc(h.ast), "after TimeSliceExceeded the state is not saved (path: %s)" % w.brief(), w)
-        r.count(3 * len(scfg2.nodes))
+        for f in slice_fns:
+            for n in f.cfg().find(save):
+                r.site(f, n.ast, "save_state")
+        n_states = 0
+        for (fq, _st0), outs in sl.memo.items():
+            for (_k, (ps, par, _n)) in outs.items():
+                n_states = max(n_states, len(par))
+        r.count(sum(len(f.cfg().nodes) for f in slice_fns) + n_states)
+
+        def where(kind_st):
+            (ps, par, nts) = outcomes[kind_st]
+            return _ip_brief(scfg2, par, nts, ps), _ip_witness(scfg2, par, ps)
+        via = (" (followed through %s)" % ", ".join(f.name for f in slice_fns[1:])) if slice_fns[1:] else ""
+        for (kind, st, val) in sorted(outcomes, key=repr):
+            (cst, armed) = st
+            brief, w = where((kind, st, val))
+            if kind == "tse":
+                r.violation(crawl_fn, crawl_fn.loc(c), "TimeSliceExceeded raised by the traversal is not caught in start_slice%s: "
+                            "the slice ends without saving and without re-arming the timer (path: %s)" % (via, brief), w)
+                continue
+            if kind.startswith("err"):
+                if cst >= 1:
+                    r.violation(ss, ss.loc(), "after the crawl step stopped start_slice%s can raise %s instead of saving the state "
+                                "and re-arming the timer (path: %s)" % (via, kind.split(":", 1)[1], brief), w)
+                continue
+            if cst == 1:
+                timed_out = "/exc" in brief
+                bf = _unsaved_in(sl, ss, (0, 0), (kind, st, val))
+                r.violation(bf, bf.loc(), "start_slice%s can finish %swithout save_state() after the crawl step stopped: "
+                            "the progress of the slice is lost when the process dies before a later save, the buckets of this "
+                            "slice are processed again after the restart (path: %s)" % (
+                                via, "a slice that ran out of time (TimeSliceExceeded) " if timed_out else "", brief), w)
+            if not armed:
+                r.violation(ss, ss.loc(), "start_slice%s can return while the service is running without scheduling the next "
+                            "slice: the cycle never completes (path: %s)" % (via, brief), w)
 
         def rearm(n):
-            for c2 in calls_at(n, "callLater"):
-                if len(c2.args) >= 2 and attr_path(c2.args[1]) == "self.start_slice":
-                    return True
-            return False
-        stopped = lambda n, lab: snorm.edge_fact(n, lab) == ("false", "self.running", None)
-        for n in scfg2.find(rearm):
-            r.site(ss, n.ast, "re-arm")
-        for (n, w) in find_path_avoiding(scfg2, lambda n: n.kind == "exit", gate_node=rearm, gate_edge=stopped):
-            r.violation(ss, ss.loc(), "start_slice can return while the service is running without scheduling the next "
-                        "slice: the cycle never completes (path: %s)" % w.brief(), w)
+            return any(sl.is_rearm(c2) for c2 in node_calls(n))
+        for f in slice_fns:
+            for n in f.cfg().find(rearm):
+                r.site(f, n.ast, "re-arm")
         # stopService / startService
         st = idx.func(SC + ".stopService")
         for n in st.cfg().find(save):
@@ -801,12 +1122,24 @@ def run(ctx: Context):
             for (n, w) in find_path_avoiding(sta.cfg(), lambda n: n.kind == "exit", gate_node=lambda n: n is upn):
                 r.violation(sta, sta.loc(), "startService can return without MultiService.startService", w)
         # who may enter the traversal
-        bad, badrefs, total = callers_outside(idx, "start_current_prefix", [SC + ".start_slice"])
+        slice_quals = [short_q(f) for f in slice_fns]
+        bad, badrefs, total = callers_outside(idx, CRAWL, slice_quals)
         for cs in bad:
             if not cs.fn.module.name.startswith("allmydata.test"):
                 r.violation(cs.fn, cs.loc, "%s calls start_current_prefix outside start_slice: its progress is not saved" % short(cs.fn))
+        # a helper of the slice is an entry into the traversal as well: who else calls it must get the same guarantee
+        for h in slice_fns[1:]:
+            leaks = [k for k in sl.summary(h, (0, 0)) if k[1][0] == 1]
+            if not leaks:
+                continue
+            bad, badrefs, total = callers_outside(idx, h.name, slice_quals)
+            for cs in bad:
+                if not cs.fn.module.name.startswith("allmydata.test"):
+                    r.violation(cs.fn, cs.loc, "%s calls %s outside start_slice: that helper can run the crawl step and "
+                                "return without save_state(), its progress is not saved" % (short(cs.fn), h.name))
         # subclasses inherit the traversal and bookkeeping
-        frozen = ("start_current_prefix", "start_slice", "save_state", "load_state", "stopService", "startService")
+        frozen = ("start_current_prefix", "start_slice", "save_state", "load_state", "stopService", "startService") \
+            + tuple(h.name for h in slice_fns[1:])
         for ci in idx.subclasses(idx.cls(SC)):
             if ci.module.name.startswith("allmydata.test"):
                 continue
@@ -1027,13 +1360,19 @@ def run(ctx: Context):
         sc_cls = idx.cls(SC)
         fns = [idx.func(SC + "." + m) for m in ("__init__", "load_state", "save_state", "get_state", "startService",
                                                 "stopService", "start_slice", "start_current_prefix", "process_prefixdir")]
+        # ... and the ShareCrawler methods a slice is split into: whatever start_slice / the traversal reach through
+        # self.<m>(..) calls (hooks included - in the base class they are part of the slice as well)
+        slice_parts = _self_callees(sc_cls, [f for f in fns if f.name in ("start_slice", "start_current_prefix",
+                                                                           "process_prefixdir", "save_state")])
+        slice_parts = [f for f in slice_parts if f not in fns]
+        fns += slice_parts
         fns += [idx.func(SER + ".save"), idx.func(SER + ".load"), idx.func("storage.crawler:_dump_json_to_file"),
                 idx.func("storage.common:storage_index_to_dir"), idx.func("util.fileutil:move_into_place")]
         for f in fns:
             r.site(f, None, "locals bound before use")
             for (n, name, w) in _unbound_reads(f):
-                if f.cls is sc_cls and f.name in ("start_slice", "start_current_prefix", "process_prefixdir", "save_state",
-                                                  "get_state"):
+                if f.cls is sc_cls and (f in slice_parts or f.name in ("start_slice", "start_current_prefix", "process_prefixdir",
+                                                                       "save_state", "get_state")):
                     cons = (": the slice aborts with an exception start_slice does not catch - the timer is not "
                             "re-armed, the cycle is never completed")
                 elif f.cls is sc_cls and f.name in ("__init__", "load_state"):
@@ -1047,6 +1386,7 @@ def run(ctx: Context):
         init = idx.func(SC + ".__init__")
         trav = [idx.func(SC + "." + m) for m in ("start_slice", "start_current_prefix", "process_prefixdir",
                                                  "save_state", "get_state", "stopService", "startService")]
+        trav += slice_parts
         # attributes of twisted's Service / MultiService (set by the base class)
         BASE_ATTRS = ("running", "parent", "name", "services", "namedServices")
         reads = {}
@@ -1155,6 +1495,23 @@ def run(ctx: Context):
                             "prefixdir, whose first buckets are then passed over although they do not compare <= the "
                             "last-complete-bucket of that cycle - they are silently not covered" % (
                                 v, a, want, w.brief(), P_CYCLE), w)
+
+
+def _self_callees(ci, roots):
+    """The methods defined in class ci itself that the roots reach through self.<m>(..) calls (roots excluded)."""
+    seen = {f.qual for f in roots}
+    out, todo = [], list(roots)
+    while todo:
+        f = todo.pop(0)
+        for c in calls_in_func(f):
+            nm = call_name(c) or ""
+            if nm.startswith("self.") and nm.count(".") == 1:
+                m = ci.methods.get(nm.split(".", 1)[1])
+                if m is not None and m.qual not in seen:
+                    seen.add(m.qual)
+                    out.append(m)
+                    todo.append(m)
+    return out
 
 
 def _comp_bound(e):
